@@ -146,7 +146,8 @@ class ParserTotal(BoundedCheck):
             return out
         want = independent_statement_count(s)
         if want is not None:
-            got = len([x for x in symbols if x.equation is not None])
+            # one statement may name several left-hand-side terms (`Y._=1`): they share one equation text; verbatim blocks count individually
+            got = len({x.equation for x in symbols if x.equation is not None and x.name is not None}) + len([x for x in symbols if x.name is None])
             if got != want:
                 import re as _re
                 sig = 'c13.statement-dropped'
